@@ -169,6 +169,19 @@ func drawBlocks(rt *rapid.T, minB, maxB int, p2psig bool) []BlockPlan {
 		b.Reverse = rapid.IntRange(0, 4).Draw(rt, "rev") == 4
 		bl = append(bl, b)
 	}
+	if nb >= 4 && rapid.IntRange(0, 3).Draw(rt, "cryptoseq") == 0 {
+		// the two-curve key bytes used on one curve in one block and on the other curve a block or two later (the
+		// 1-of-2 account gets its funds in the first of the three)
+		i := rapid.IntRange(0, nb-3).Draw(rt, "cryptoat")
+		first := rapid.IntRange(0, 1).Draw(rt, "cryptofirst")
+		bl[i].Ops = append(bl[i].Ops, Op{Kind: OpCrypto, X: 2})
+		bl[i+1].Ops = append(bl[i+1].Ops, Op{Kind: OpCrypto, X: first, A: 1})
+		j := i + 2
+		if rapid.Bool().Draw(rt, "cryptosameblock") {
+			j = i + 1
+		}
+		bl[j].Ops = append(bl[j].Ops, Op{Kind: OpCrypto, X: 1 - first, A: 2})
+	}
 	return bl
 }
 
